@@ -95,15 +95,20 @@ Fixpoint save_tasks (d : dir) (base : name) (start : Z) (parts : list (list cont
 
 (* SampleList.save (mean = None) / ResidualSampleList.save (mean = Some m):
        _ensure_proper_sample_list_ending(_sample_file_name(file_name_base, self.n_samples), overwrite, comm)
+       [SampleList only, when present in the source (flag rm_mean = plain_save_unlinks_mean):
+        with ensure_all_tasks_succeed(self.comm):
+            if overwrite and self.MPI_master:
+                pathlib.Path(f"{file_name_base}.mean.pickle").unlink(missing_ok=True) ]
        with ensure_all_tasks_succeed(comm): <save_local on every task>
        with ensure_all_tasks_succeed(comm): if master: _save_to_disk(mean file, self._m, overwrite)
    Every failure surfaces as RuntimeError on every task (ensure_all_tasks_succeed). *)
 Definition save_list (d : dir) (base : name) (parts : list (list content)) (mean : option content)
-           (overwrite : bool) : dir * result unit :=
+           (rm_mean : bool) (overwrite : bool) : dir * result unit :=
   let n := Z.of_nat (length (concat parts)) in
   match ensure_ending d (sample_file_name base n) overwrite with
   | (d1, true) => (d1, Raise RuntimeError)
   | (d1, false) =>
+      let d1 := if rm_mean && overwrite then remove d1 (mean_file_name base) else d1 in
       match save_tasks d1 base 0 parts overwrite with
       | (d2, true) => (d2, Raise RuntimeError)
       | (d2, false) =>
@@ -119,9 +124,9 @@ Definition save_list (d : dir) (base : name) (parts : list (list content)) (mean
   end.
 
 Definition save_plain d base (parts : list (list A)) overwrite :=
-  save_list d base (map (map Plain) parts) None overwrite.
+  save_list d base (map (map Plain) parts) None plain_save_unlinks_mean overwrite.
 Definition save_resid d base (m : A) (parts : list (list (A * bool))) overwrite :=
-  save_list d base (map (map (fun rn => Resid (fst rn) (snd rn))) parts) (Some (MeanC m)) overwrite.
+  save_list d base (map (map (fun rn => Resid (fst rn) (snd rn))) parts) (Some (MeanC m)) false overwrite.
 
 (* ---- loading ---- *)
 Fixpoint mapM {X Y} (f : X -> result Y) (l : list X) : result (list Y) :=
